@@ -73,6 +73,12 @@ func executeCompaction(db *DB) (compactionMetadata *proto.CompactionMetadata, er
 
 	log.Printf("starting compaction of %d files in %v with %v\n", len(paths), writeFolder, strings.Join(paths, ","))
 
+	// the selected tables may hold no records at all (everything was a tombstone that an earlier compaction dropped),
+	// the writer needs a positive number to dimension the bloom filter of the (then empty) result
+	if numRecords == 0 {
+		numRecords = 1
+	}
+
 	writer, err := sstables.NewSSTableStreamWriter(
 		sstables.WriteBasePath(writeFolder),
 		sstables.WithKeyComparator(skiplist.BytesComparator{}),
